@@ -252,6 +252,17 @@ def write_replay(prop, engine_name, history, violation, tag):
     return path
 
 
+def _strict(o):
+    import math
+    if isinstance(o, dict):
+        return {str(k): _strict(v) for k, v in o.items()}
+    if isinstance(o, (list, tuple)):
+        return [_strict(v) for v in o]
+    if isinstance(o, float) and not math.isfinite(o):
+        return repr(o)
+    return o
+
+
 def _json_default(o):
     import numpy as np
     if isinstance(o, np.ndarray):
@@ -360,7 +371,9 @@ def check_main(engine_name, prop, tier, base_seed, cfg, nruns, workers,
     ev = evidence_fn(results, wall, truncated, len(reported), known_hit)
     os.makedirs(EVID_DIR, exist_ok=True)
     with open(os.path.join(EVID_DIR, f'{prop}.json'), 'w') as f:
-        json.dump(ev, f, indent=1, default=_json_default)
+        # strict JSON: non-finite floats as strings
+        json.dump(_strict(ev), f, indent=1, default=_json_default,
+                  allow_nan=False)
     if rc == 0 and (errors or harness_broken):
         rc = 2
     n_ok = len(results) - len(errors)
